@@ -36,6 +36,7 @@ class Lib(object):
         self.model_classes = {"BytesIO": "BytesIO", "Lock": "Lock", "Condition": "Condition", "socket": "socket", "count": "count",
                               "pipefile": "pipefile"}
         self.used = set()
+        self.views = set()
         self.slice_cache_key = "__slices__"
 
     def P(self, engine, st, name, *args):
@@ -128,6 +129,13 @@ class Lib(object):
                 st.assume(z3.Implies(self.spec.uf["is_module"](to_val(o)),
                                      z3.And(Val.is_VStr(r), z3.Length(self.P(engine, st, "utf8", SStr(Val.vs(r))).z) < 2 ** 32)))
             yield st, SVal(r)
+            return
+        if isinstance(o, SVal) and name in ("sync_request", "async_request"):
+            yield st, RequestMethod(o, name)
+            return
+        if isinstance(o, SVal) and name == "____refcount__":
+            arr = st.heap[("$netref", "refcount")] if ("$netref", "refcount") in st.heap else engine.netref_refcounts0()
+            yield st, SInt(z3.Select(arr.z, o.z))
             return
         if isinstance(o, SVal) and name in ("____conn__", "____id_pack__"):
             # slots of a proxy object, read through object.__getattribute__ (LOCAL_ATTRS): no request, no user code.
@@ -350,7 +358,11 @@ class Lib(object):
             yield st, None
             return
         if name in ("keys", "values", "items") and not args:
-            yield st, SVal(fresh("dict_%s" % name, Val))         # an opaque view (used for messages only)
+            # a view: an uninterpreted function of the dict's contents
+            v = self.spec.uf["dict_view"](z3.IntVal(("keys", "values", "items").index(name)), engine.heap_get(st, d, "map").z,
+                                          engine.heap_get(st, d, "has").z)
+            self.views.add(v.get_id())
+            yield st, SVal(v)
             return
         raise Unsupported("dict.%s (line %d)" % (name, node.lineno))
 
@@ -611,6 +623,53 @@ class Lib(object):
         if f is _SNOC:
             yield st, self.call_snoc(engine, st, args[0], args[1])
             return
+        if isinstance(f, RequestMethod):
+            for r in self.request_event(engine, st, f, SVL(to_vl(args)), kwargs, node):
+                yield r
+            return
+        if f is object.__getattribute__ and len(args) == 2 and isinstance(args[0], SVal) and \
+                args[1] in ("____conn__", "____id_pack__", "____refcount__", "__class__"):
+            for r in self.sym_getattr(engine, st, args[0], args[1], node):
+                yield r
+            return
+        if f in (object.__getattribute__, object.__setattr__, object.__delattr__) and args and isinstance(args[0], (Obj, SVal)):
+            # the proxy's OWN attribute machinery (LOCAL_ATTRS): a local slot access, no request, no user code
+            self.used.add("object.__getattribute__/__setattr__/__delattr__ on a proxy: a local slot access (ghost event Local)")
+            kind = {object.__getattribute__: "LocalGet", object.__setattr__: "LocalSet", object.__delattr__: "LocalDel"}[f]
+            if len(args) >= 2 and args[1] == "__class__" and f is object.__getattribute__:
+                yield st, SVal(self.spec.uf["meta_attr"](to_val(args[0]), seq_lit("__class__")))
+                return
+            bad = st.fork().label("L%d:%s raises AttributeError" % (ln, kind))
+            bad.trace.append((kind, to_val(args[0]), to_val(args[1]), "raise"))
+            yield bad, Raised(AttributeError, ExcObj(AttributeError))
+            res = SVal(fresh("local_attr@L%d" % ln, Val)) if f is object.__getattribute__ else None
+            if res is not None:
+                engine.type_invariants(st, [res])
+            st.trace.append((kind, to_val(args[0]), to_val(args[1]), res.z if res is not None else None))
+            yield st, res
+            return
+        if f is bytes and len(args) == 1 and isinstance(args[0], SVal) and not kwargs:
+            yield st, engine.narrow(st, args[0], "bytes", node, "argument of bytes()")
+            return
+        import itertools as _it
+        import pickle as _pk
+        for fn, opname in ((repr, "repr"), (str, "str"), (hash, "hash"), (dir, "dir"), (_it.islice, "islice"),
+                           (_pk.loads, "pickle.loads"), (_pk.dumps, "pickle.dumps")):
+            if f is fn and args and isinstance(args[0], SVal) and not (fn is str and len(args) != 1):
+                # a builtin applied to an arbitrary object runs that object's code: one ghost Op event, any outcome
+                self.used.add("%s(obj) on a dynamic object = one ghost Op event, any result, any exception" % opname)
+                rest = SVL(to_vl(args[1:]))
+                for cls in [AnyException, AnyBaseException] + list(engine.exc_universe()):
+                    b = st.fork().label("L%d:%s raises %s" % (ln, opname, cls.__name__))
+                    b.trace.append(("Op", opname, args[0].z, rest.z, "raise"))
+                    yield b, Raised(cls, ExcObj(cls, info={"dynamic": True}))
+                res = SVal(fresh("%s.result@L%d" % (opname, ln), Val))
+                engine.type_invariants(st, [res])
+                if opname == "pickle.dumps":
+                    st.assume(Val.is_VBytes(res.z))          # library fact: dumps returns bytes
+                st.trace.append(("Op", opname, args[0].z, rest.z, res.z))
+                yield st, res
+                return
         if f is None or (not callable(f) and not is_sym(f) and not isinstance(f, Obj)):
             yield st.label("L%d:call non-callable" % ln), Raised(TypeError, ExcObj(TypeError))
             return
@@ -819,13 +878,32 @@ class Lib(object):
             self.used.add("getattr(type(obj), name, default): the class attribute or the default, no side effects")
             yield st, SVal(self.spec.uf["class_attr"](args[0].z, zseq(args[1]), to_val(args[2])))
             return
+        if f is str and len(args) == 1 and isinstance(args[0], SStr):
+            yield st, args[0]
+            return
+        if f is str and len(args) == 1 and isinstance(args[0], SVal):
+            self.used.add("str(x) of a plain value: its text rendering (no user code); str(text) is the text itself")
+            z = args[0].z
+            ref = st.fork().assume(Val.is_VRef(z))
+            engine.oblige(ref, "no-dynamic-str@L%d[%s]" % (ln, engine.path_label(ref)), FALSE,
+                          props=engine.all_props(engine.cur[1]), kind="pre",
+                          note="str() of an arbitrary heap object runs its __str__: not modelled; the value must be plain here")
+            st.assume(z3.Not(Val.is_VRef(z)))
+            r = self.spec.uf["str_of"](z)
+            st.assume(z3.Implies(Val.is_VStr(z), r == Val.vs(z)))
+            yield st, SStr(r)
+            return
         if f is str and len(args) == 2 and args[1] in ("utf8", "utf-8") and isinstance(args[0], (SVal, SBytes)):
             b = engine.narrow(st, args[0], "bytes", node, "str(x, 'utf8') argument")
             for r in self.call_symmethod(engine, st, SymMethod(b, "decode"), ["utf8"], {}, node):
                 yield r
             return
-        if f is list and len(args) == 1 and isinstance(args[0], SVal):
-            yield st, SVal(fresh("list_of", Val))
+        if f in (list, tuple) and len(args) == 1 and isinstance(args[0], SVal):
+            self.used.add("tuple(x) / list(x) of a dynamic value: an uninterpreted function of x (or TypeError)")
+            if args[0].z.get_id() not in self.views:       # a dict view is always iterable
+                bad = st.fork().label("L%d:%s() raises" % (ln, f.__name__))
+                yield bad, Raised(TypeError, ExcObj(TypeError))
+            yield st, SVal(self.spec.uf["seq_of"](z3.IntVal(0 if f is tuple else 1), args[0].z))
             return
         if f is dict and len(args) == 1 and isinstance(args[0], (SVal, SVL, tuple)) and not kwargs:
             self.used.add("dict(pairs): an opaque mapping value determined by the pairs, or TypeError/ValueError")
@@ -925,6 +1003,56 @@ class Lib(object):
 
     # -- subscripts ---------------------------------------------------------------------------
     def getitem(self, engine, st, o, k, node):
+        fn = self.repo_dunder(engine, o, "__getitem__")
+        if fn is not None:
+            for r in engine.call_repo(st, fn, [o, k], {}, node):
+                yield r
+            return
+        if isinstance(o, SVal) and type(k) is int and k >= 0:
+            # indexing a dynamic value with a constant: tuples yield their item (IndexError if too short); bytes / text
+            # yield a plain element; other plain values are not subscriptable; heap objects are not modelled here
+            z = o.z
+            ln = engine.rel_line(node)
+            self.R(engine, st, "plain", o)
+            cur = Val.titems(z)
+            for _ in range(k):
+                cur = VL.tl(cur)
+            spine_ok = [VL.is_cons(c) for c in [Val.titems(z)] + [None] * 0]
+            have = Val.is_VTuple(z)
+            walk = Val.titems(z)
+            conds = [have]
+            for _ in range(k + 1):
+                conds.append(VL.is_cons(walk))
+                walk = VL.tl(walk)
+            good = st.fork().assume(z3.And(conds)).label("L%d:[%d] of tuple" % (ln, k))
+            if engine.feasible(good):
+                # unfold the element-wise predicates along the visited cells (the items of a plain tuple are plain, ...)
+                self.R(engine, good, "plain", o)
+                self.R(engine, good, "sized", o)
+                cell = Val.titems(z)
+                for _ in range(k + 1):
+                    for fn in ("plain_list", "sized_list"):
+                        self.R(engine, good, fn, SVL(cell))
+                    cell = VL.tl(cell)
+                yield good, SVal(VL.hd(cur))
+            short = st.fork().assume(z3.And(have, z3.Not(z3.And(conds)))).label("L%d:[%d] IndexError" % (ln, k))
+            if engine.feasible(short):
+                yield short, Raised(IndexError, ExcObj(IndexError))
+            seq = st.fork().assume(z3.Or(Val.is_VBytes(z), Val.is_VStr(z))).label("L%d:[%d] of bytes/text" % (ln, k))
+            if engine.feasible(seq):
+                r = SVal(fresh("elem", Val))
+                seq.assume(z3.Or(Val.is_VInt(r.z), Val.is_VStr(r.z)))
+                yield seq, r
+                yield seq.fork().label("IndexError"), Raised(IndexError, ExcObj(IndexError))
+            other = st.fork().assume(z3.Not(z3.Or(have, Val.is_VBytes(z), Val.is_VStr(z)))).label("L%d:[%d] not subscriptable" % (ln, k))
+            if engine.feasible(other):
+                ref = other.fork().assume(Val.is_VRef(z))
+                engine.oblige(ref, "no-dynamic-getitem@L%d[%s]" % (ln, engine.path_label(ref)), FALSE,
+                              props=engine.all_props(engine.cur[1]), kind="pre",
+                              note="subscripting an arbitrary heap object is not modelled; the value must be plain here")
+                other.assume(z3.Not(Val.is_VRef(z)))
+                yield other, Raised(TypeError, ExcObj(TypeError))
+            return
         if isinstance(o, Obj) and o.kind == "dict":
             m, h = self.dget(engine, st, o)
             kk = to_val(k)
@@ -963,6 +1091,9 @@ class Lib(object):
         raise Unsupported("subscript %r[%r] (line %d)" % (o, k, node.lineno))
 
     def setitem(self, engine, st, o, k, v, node):
+        fn = self.repo_dunder(engine, o, "__setitem__")
+        if fn is not None:
+            return [(s1, (r if isinstance(r, Raised) else None)) for s1, r in engine.call_repo(st, fn, [o, k, v], {}, node)]
         if isinstance(o, Obj) and o.kind == "dict":
             m, h = self.dget(engine, st, o)
             kk = to_val(k)
@@ -1086,19 +1217,28 @@ class Lib(object):
         are not iterable (TypeError) or outside the subset (bytes/str/heap objects: must be infeasible)"""
         z = v.z
         ln = engine.rel_line(node)
+        for fn in ("plain", "sized"):
+            self.R(engine, st, fn, v)           # definitions of the element-wise predicates at the iterated value
         a = st.fork().assume(Val.is_VTuple(z)).label("L%d:iter tuple" % ln)
         if engine.feasible(a):
             yield a, SVL(Val.titems(z))
         b = st.fork().assume(Val.is_VFset(z)).label("L%d:iter fset" % ln)
         if engine.feasible(b):
             yield b, self.P_order(engine, b, SFset(Val.fitems(z)))
-        c = st.fork().assume(z3.Not(z3.Or(Val.is_VTuple(z), Val.is_VFset(z)))).label("L%d:iter other" % ln)
+        s_ = st.fork().assume(z3.Or(Val.is_VBytes(z), Val.is_VStr(z))).label("L%d:iter bytes/text" % ln)
+        if engine.feasible(s_):
+            self.used.add("iterating bytes / text yields plain elements (ints / one-character texts)")
+            elems = SVL(self.spec.uf["iter_items"](z))
+            for fn in ("plain_list", "sized_list"):
+                s_.assume(ops._z(truth(self.R(engine, s_, fn, elems))))
+            yield s_, elems
+        c = st.fork().assume(z3.Not(z3.Or(Val.is_VTuple(z), Val.is_VFset(z), Val.is_VBytes(z), Val.is_VStr(z)))).label("L%d:iter other" % ln)
         if engine.feasible(c):
-            d = c.fork().assume(z3.Or(Val.is_VBytes(z), Val.is_VStr(z), Val.is_VRef(z)))
+            d = c.fork().assume(Val.is_VRef(z))
             engine.oblige(d, "no-dynamic-iter@L%d[%s]" % (ln, engine.path_label(d)), FALSE,
                           props=engine.all_props(engine.cur[1]), kind="pre",
-                          note="iteration over bytes/text/heap objects is not modelled here; must be infeasible")
-            c.assume(z3.Not(z3.Or(Val.is_VBytes(z), Val.is_VStr(z), Val.is_VRef(z))))
+                          note="iteration over an arbitrary heap object is not modelled here; must be infeasible")
+            c.assume(z3.Not(Val.is_VRef(z)))
             yield c, Raised(TypeError, ExcObj(TypeError))
 
     def unpack_failure(self, engine, st, v, n):
@@ -1193,7 +1333,21 @@ class Lib(object):
         self.used.add("`name in sys.modules`: an uninterpreted predicate of the name")
         return b2v(self.spec.uf["in_sys_modules"](to_val(x)))
 
+    def repo_dunder(self, engine, o, name):
+        import types as _t, inspect as _i
+        if isinstance(o, Obj) and isinstance(o.cls, type):
+            try:
+                raw = _i.getattr_static(o.cls, name)
+            except AttributeError:
+                return None
+            if isinstance(raw, _t.FunctionType) and engine.is_repo_function(raw):
+                return raw
+        return None
+
     def contains_obj(self, engine, st, coll, x, node):
+        fn = self.repo_dunder(engine, coll, "__contains__")
+        if fn is not None:
+            return list(engine.call_repo(st, fn, [coll, x], {}, node))
         if coll.kind == "dict":
             m, h = self.dget(engine, st, coll)
             return [(st, b2v(z3.Select(h, to_val(x))))]
@@ -1253,6 +1407,16 @@ class Lib(object):
     def call_star_symbolic(self, engine, st, f, args, starval, kwargs, node):
         """f(a, b, *rest) where rest is symbolic: a repository function with a *varargs parameter receives it
         there; callables without a contract go through apply"""
+        if isinstance(f, RequestMethod):
+            for st1, vl in self.star_items(engine, st, starval, node):
+                if isinstance(vl, Raised):
+                    yield st1, vl
+                    continue
+                for a in reversed(args):
+                    vl = VL.cons(to_val(a), vl)
+                for r in self.request_event(engine, st1, f, SVL(vl), kwargs, node):
+                    yield r
+            return
         target = f.func if isinstance(f, BoundMethod) else f
         if engine.is_repo_function(target):
             import inspect
@@ -1280,6 +1444,19 @@ class Lib(object):
             for r in self.apply_dynamic(engine, st1, f, SVL(vl), node):
                 yield r
 
+    def request_event(self, engine, st, f, argvl, kwargs, node):
+        self.used.add("conn.sync_request / async_request on a proxy's connection = one ghost Request event, any result, any exception")
+        ln = engine.rel_line(node)
+        kw = to_val(tuple(sorted(kwargs.items()))) if kwargs else None
+        for cls in [AnyException, AnyBaseException] + list(engine.exc_universe()):
+            b = st.fork().label("L%d:request raises %s" % (ln, cls.__name__))
+            b.trace.append(("Request", f.name, f.conn.z, argvl.z, "raise", kw))
+            yield b, Raised(cls, ExcObj(cls, info={"dynamic": True}))
+        res = SVal(fresh("request.result@L%d" % ln, Val))
+        engine.type_invariants(st, [res])
+        st.trace.append(("Request", f.name, f.conn.z, argvl.z, res.z, kw))
+        yield st, res
+
     def apply_dynamic(self, engine, st, f, argvl, node, kwargs=None):
         """call of a value about which nothing is known (uninterpreted `apply`): appends a Call event, may
         return anything and raise anything; it does not touch the heap locations the engine tracks"""
@@ -1305,6 +1482,15 @@ class _Deleted(object):
 
 
 DELETED = _Deleted()
+
+
+class RequestMethod(object):
+    """conn.sync_request / conn.async_request where conn is a proxy's connection (a dynamic value): calling it is
+    one ghost Request event (the request itself is Connection.sync_request / async_request's business)"""
+
+    def __init__(self, conn, name):
+        self.conn = conn
+        self.name = name
 
 
 class VarArgs(object):
